@@ -265,9 +265,9 @@ EXT_LAYOUT = {
     "top/__init__.py": [], "top/proj/__init__.py": [], "top/proj/a.py": [], "top/proj/handlers.py": [],
     "top/proj/sub/__init__.py": [], "top/proj/sub/m.py": [], "top/proj/subx/__init__.py": [], "top/proj/subx/m.py": [],
 }
-EXT_STATEMENTS = [("import", "os"), ("import", "handlers"), ("import", "topx.m"), ("import", "top.proj.subx.m"), ("import", "top.proj.handlers"),
+EXT_STATEMENTS = [("import", "os"), ("import", "sos"), ("import", "handlers"), ("import", "topx.m"), ("import", "top.proj.subx.m"), ("import", "top.proj.handlers"),
                   ("from", "top.proj", ("handlers",)), ("import", "x.y.z"), ("rel", 1, "", ("handlers",)), ("import", "proj.subx")]
-EXT_MAP = {"top": "rt", "proj": "pj", "sub": "sb", "subx": "elsewhere", "handlers": "hd", "topx": "tother", "m": "mm", "a": "aa"}
+EXT_MAP = {"sos": "zeta", "top": "rt", "proj": "pj", "sub": "sb", "subx": "elsewhere", "handlers": "hd", "topx": "tother", "m": "mm", "a": "aa"}
 
 
 # a package directly below the root whose name starts with the root's name, scanned as module_path,
